@@ -97,7 +97,7 @@ def main():
 
 
 MANIFEST = {
-    "claimed": False,
+    "claimed": True,
     "text": 'Theorems (Coq, closed) about the decision model of Server::handle, for every datagram summary, policy configuration, cache state and buffer outcome: exactly one ServerStatHandler::register call on every path incl. serialisation failure (C21_exactly_one), whose response kind is what was done: ProvideTime iff a time answer, Deny iff a DENY kiss, NTSNak iff a NAK, Ignore iff nothing sent (C21_kind_matches); the NTS flag is false for undecodable and for plain requests, true for every authenticating NTS request that is answered, and for a failing authenticator true when the NAK is sent (or could not be serialised) and false when policy answers DENY (C21_nts_flag). Daemon: after any sequence of registrations each of the eleven counters equals the number of registrations of its class mod 2^64 (C21_counters), every registration is in `received` and in exactly one outcome counter, NTS counters are sub-populations (C21_counters_partition); over any history of datagrams the class counts equal the numbers of time answers / DENY / NAK / unanswered datagrams (C21_history). Ties: Server::handle with a recording handler (policy grid, buffer-size stream, random); ServerStats::register on all single registrations, all pairs and random sequences.',
     "note": "Trusted: Coq kernel+vm_compute; hand-written model coq/Model/Server.v (handle, register); decoder, answer construction and 'answer fits the buffer' are inputs of the model (see C15); the daemon line passing `&mut self.stats` to Server::handle and the no-timestamp path (register(0,false,InternalError,Ignore)) are read, not executed; response_send_errors is outside `register`. Reading (DESIGN 5): 'plain' = decoded without cookie, 'NTS request' = authenticates under a server key; a NAK that does not fit the buffer is registered InternalError/Ignore WITH the NTS flag. Print Assumptions: closed under the global context for all six theorems.",
     "design_ref": "DESIGN.md 3 C21",
